@@ -235,6 +235,13 @@ Definition m_from_coo (idx : option dty) (xd : dty) (rows cols : Z) (lin : list 
    splice of the index-pointer arrays.  ptrs: (indptr, nnz) of every operand *)
 Definition gcxs_join_dtype (d : dty) (needed : Z) : res dty :=
   if negb (can_store d needed) then dec_dty1 (g_gcxs_concat_upcast (dty_pyv d) (VInt needed)) else Ok d.
+(* needed = max(total_nnz, indptr.shape[0] - 1) (generated) *)
+Definition gcxs_join_needed (total plen : Z) : res Z :=
+  match g_gcxs_join_needed (VInt total) (VInt plen) with
+  | Ok (VInt z) => Ok z
+  | Ok _ => Raise OtherError
+  | Raise e => Raise e
+  end.
 (* length of np.concatenate([p0, p1[1:], p2[1:], ...]) *)
 Definition joined_len (ptrs : list (list Z * Z)) : Z :=
   match ptrs with
@@ -258,7 +265,8 @@ Fixpoint join_tail (d : dty) (prev : list Z) (segs : list (list Z * Z)) : res (l
   end.
 Definition m_gcxs_join (d : dty) (ptrs : list (list Z * Z)) : res tarr :=
   (* needed = max(total_nnz, indptr.shape[0] - 1): the dtype also has to hold the row numbers *)
-  d' <- gcxs_join_dtype d (s_gcxs_join_needed (zsum (map snd ptrs)) (joined_len ptrs)) ;;
+  needed <- gcxs_join_needed (zsum (map snd ptrs)) (joined_len ptrs) ;;
+  d' <- gcxs_join_dtype d needed ;;
   match ptrs with
   | [] => Ok (mkT d' [])
   | (p0, n0) :: r => t <- join_tail d' [n0] r ;; Ok (mkT d' (map (wr d') p0 ++ t))
@@ -333,3 +341,8 @@ Definition m_dot_indptr (d : dty) (rows : Z) (rc : list Z) : tarr :=
 (* ---------------------------------------------------------------- COO.__init__ on an array without stored
    elements: the coordinate dtype that results from a supplied (empty) coordinate array of dtype d *)
 Definition m_ctor_empty_dtype (d : dty) : dty := s_ctor_empty_dtype d.
+
+(* ---------------------------------------------------------------- _diagonal_idx (Numba kernel): which stored
+   elements lie on the diagonal `offset` of the axis pair; a1 / a2: their coordinates on axis1 / axis2 *)
+Definition m_diagonal_mask (d : dty) (a1 a2 : list Z) (offset : Z) : list bool :=
+  s_diagonal_mask (mkT d a1) (mkT d a2) offset.
